@@ -250,7 +250,7 @@ fn swarm(rng: &mut Rng) -> Swarm {
         globals: b(1, 2),
         aliases: b(1, 2),
         flag_subs: b(1, 3),
-        external: b(1, 5),
+        external: b(1, 3),
         infer_sub: b(1, 4),
         infer_long: b(1, 4),
         acws: b(1, 5),
